@@ -116,6 +116,8 @@ func VerifHarness_C08_match() {
 	node.pushDataHashes = append(node.pushDataHashes, subs...)
 
 	var out, in []byte
+	// the four ways to push 20 bytes: direct, OP_PUSHDATA1, OP_PUSHDATA2, OP_PUSHDATA4
+	forms := [][]byte{{0x14}, {0x4c, 0x14}, {0x4d, 0x14, 0x00}, {0x4e, 0x14, 0x00, 0x00, 0x00}}
 	switch verifrt.Choose("shape", 3) {
 	case 0: // one fully symbolic script, as the output's locking or the input's unlocking script
 		sc := verifrt.Bytes("script", verifrt.Choose("script.len", maxL+1))
@@ -124,14 +126,16 @@ func VerifHarness_C08_match() {
 		} else {
 			in = sc
 		}
-	case 1: // a 20-byte direct push between short symbolic fragments, in the output
+	case 1: // a 20-byte push (any of the four push forms) between short symbolic fragments, in the output
 		pre := c08NonPush(verifrt.Bytes("out.pre", verifrt.Choose("out.pre.len", maxFrag+1)))
 		post := verifrt.Bytes("out.post", verifrt.Choose("out.post.len", maxFrag+1))
-		out = append(append(append(pre, 0x14), verifrt.Bytes("out.push20", 20)...), post...)
+		form := forms[verifrt.Choose("out.push-form", len(forms))]
+		out = append(append(append(pre, form...), verifrt.Bytes("out.push20", 20)...), post...)
 	case 2: // the same in the unlocking script of an input
 		pre := c08NonPush(verifrt.Bytes("in.pre", verifrt.Choose("in.pre.len", maxFrag+1)))
 		post := verifrt.Bytes("in.post", verifrt.Choose("in.post.len", maxFrag+1))
-		in = append(append(append(pre, 0x14), verifrt.Bytes("in.push20", 20)...), post...)
+		form := forms[verifrt.Choose("in.push-form", len(forms))]
+		in = append(append(append(pre, form...), verifrt.Bytes("in.push20", 20)...), post...)
 	}
 	tx := wire.NewMsgTx(1)
 	var prev bitcoin.Hash32
